@@ -588,9 +588,9 @@ def check(ctx):
         functional.run_cases(ctx, name, cases, run_chunk, sig_fn)
     missing = REQUIRED - seen
     if missing:
-        raise core.Machinery("enumeration never produced input class(es) %s" % sorted(missing))
+        core.vacuity("enumeration never produced input class(es) %s" % sorted(missing))
     if not all(nres.values()):
-        raise core.Machinery("a result class was never exercised: %r" % nres)
+        core.vacuity("a result class was never exercised: %r" % nres)
     ctx.cov.setdefault("replay", {})["classes"] = {"input": sorted(seen), "results": nres}
     trace_validate(ctx, 20000 if thorough else 3000)
     live(ctx)
